@@ -10,7 +10,7 @@ ALLOWED_AXIOMS = {"propext", "Classical.choice", "Quot.sound"}
 FORBIDDEN = re.compile(r"\bsorry\b|\badmit\b|^\s*axiom\s|native_decide|bv_decide|implemented_by|\bunsafe\s|maxHeartbeats\s+0")
 
 GOENV = dict(GOFLAGS="-mod=mod", GOPROXY="off", GOSUMDB="off", GOTOOLCHAIN="local",
-             GOCACHE=os.path.join(VERIF, ".cache", "go-build"), CGO_ENABLED="1")
+             GOCACHE=os.environ.get("VERIF_GOCACHE", os.path.join(VERIF, ".cache", "go-build")), CGO_ENABLED="1")
 
 
 def env():
@@ -66,13 +66,47 @@ def load_findings(pid):
         return []
     with open(path) as f:
         data = json.load(f)
-    return [x for x in data.get("findings", []) if x.get("property") == pid]
+    out = [x for x in data.get("findings", []) if x.get("property") == pid]
+    fd = os.path.join(VERIF, "findings.d")
+    if os.path.isdir(fd):
+        for fn in sorted(os.listdir(fd)):
+            if fn.endswith(".json"):
+                with open(os.path.join(fd, fn)) as f:
+                    out += [x for x in json.load(f).get("findings", []) if x.get("property") == pid]
+    return out
 
 
 # ---------------------------------------------------------------- build steps
 
+def source_key():
+    """sha1 over every non-test .go file of /repo and factgen's own source: factgen is a pure
+    function of these, so an unchanged key means the Extracted files on disk are current."""
+    h = hashlib.sha1()
+    roots = [REPO, os.path.join(VERIF, "go", "factgen")]
+    for r in roots:
+        for root, dirs, files in os.walk(r):
+            dirs[:] = sorted(d for d in dirs if d not in (".git", "vendor", "node_modules"))
+            for fn in sorted(files):
+                if (fn.endswith(".go") and not fn.endswith("_test.go")) or fn == "go.mod" or (fn.endswith(".json") and "wants.d" in root):
+                    p = os.path.join(root, fn)
+                    h.update(p.encode())
+                    with open(p, "rb") as f:
+                        h.update(f.read())
+    return h.hexdigest()
+
+
 def build_factgen_and_extract(log):
     """Regenerate lean/Mkts/Extracted/*.lean from /repo's working tree. Returns (ok, message)."""
+    key = source_key()
+    keyfile = os.path.join(BUILD, "factgen.key")
+    dst = os.path.join(LEAN, "Mkts", "Extracted")
+    try:
+        kd = json.load(open(keyfile))
+        if kd["key"] == key and all(
+                hashlib.sha1(open(os.path.join(dst, fn), "rb").read()).hexdigest() == hx for fn, hx in kd["files"].items()):
+            return True, "regenerated; identical (source hash unchanged since last extraction)"
+    except (OSError, ValueError, KeyError):
+        pass
     with Lock("go"):
         rc, out = sh(["go", "build", "-o", os.path.join(BUILD, "factgen"), "."],
                      cwd=os.path.join(VERIF, "go", "factgen"), timeout=600)
@@ -82,7 +116,7 @@ def build_factgen_and_extract(log):
     tmp = os.path.join(WORK, "extracted.%d" % os.getpid())
     shutil.rmtree(tmp, ignore_errors=True)
     os.makedirs(tmp)
-    rc, out = sh([os.path.join(BUILD, "factgen"), REPO, tmp], cwd=REPO, timeout=600)
+    rc, out = sh([os.path.join(BUILD, "factgen"), REPO, tmp, os.path.join(VERIF, "go", "factgen", "wants.d")], cwd=REPO, timeout=600)
     if rc != 0:
         log.append("factgen failed:\n" + out)
         shutil.rmtree(tmp, ignore_errors=True)
@@ -99,6 +133,9 @@ def build_factgen_and_extract(log):
                 with open(old_path, "w") as f:
                     f.write(new)
                 changed.append(fn)
+        files = {fn: hashlib.sha1(open(os.path.join(dst, fn), "rb").read()).hexdigest() for fn in sorted(os.listdir(tmp))}
+        with open(keyfile, "w") as f:
+            json.dump({"key": key, "files": files}, f)
     shutil.rmtree(tmp, ignore_errors=True)
     return True, ("regenerated; changed: " + ",".join(changed)) if changed else "regenerated; identical"
 
@@ -329,6 +366,7 @@ def main(argv):
     notes.append("factgen: " + msg)
     if not ok:
         broken.append({"what": "factgen", "detail": msg})
+    sh([sys.executable, os.path.join(VERIF, "lib", "genall.py")])
     rc, out = lake_build([module, "mktsdrv"], log)
     if rc != 0:
         errs = broken_from_lake_output(out)
